@@ -39,6 +39,8 @@ def hseqStep (args : List String) : String :=
   match args with
   | [_, _, _, ds] =>
     let toks := (ds.splitOn ";").map fun h =>
+      -- `@k` (scenario qc2): the server's genuine datagram k, replayed: well-formed
+      if h.startsWith "@" then "dispatch" else
       match bytesOfHex h with
       | some bs => hseqTok bs
       | none => "bad-op"
